@@ -96,6 +96,11 @@ impl<W: HWord> WordWrite for RecWordWrite<W> {
         let mut l = self.log.borrow_mut();
         l.calls += 1;
         l.calls_this_op += 1;
+        if std::thread::panicking() {
+            // a writer being dropped while a panic (e.g. the budget panic below) unwinds: its Drop flushes
+            // and unwraps, and a second panic there would abort the process - swallow the word instead
+            return Ok(());
+        }
         if l.calls_this_op > l.budget {
             drop(l);
             panic!("{}", BUDGET_MSG);
